@@ -111,7 +111,12 @@ def run(ctx, rep):
             on_err = info is not None and info['status'] == 'labelled' and edge_dominates(AC, info['err'], b2)
             lo = op_const(t2['args'][2])
             lo_ok = lo is not None and lo.get('val') == 2 or ('constpath', 'fatfs::table::RESERVED_FAT_ENTRIES') in d.of_operand(t2['args'][2])
-            hi_ok = bool(d.of_operand(t2['args'][3]) & d.of_operand(t1['args'][2]) - {('const', 2)})
+            # the upper bound of the second leg is the first leg's start itself (the end is exclusive): same provenance,
+            # no further arithmetic on it
+            t_hi, t_lo = d.of_operand(t2['args'][3]), d.of_operand(t1['args'][2])
+            hi_ok = bool(t_hi & t_lo - {('const', 2)}) and \
+                {tk for tk in t_hi if tk[0] == 'op'} <= {tk for tk in t_lo if tk[0] == 'op'} and \
+                {tk for tk in t_hi if tk[0] == 'call'} <= {tk for tk in t_lo if tk[0] == 'call'}
             guard = False
             for bi in AC.reachable():
                 tt = AC.blocks[bi]['term']
